@@ -147,6 +147,13 @@ class ScalarFunction:
                 self.g = approx_derivative(
                     fun_wrapped, self.x, f0=self.f, **finite_diff_options
                 )
+                # a variable with lb == ub cannot be perturbed within its bounds, so
+                # approx_derivative returns nan for it (0 / 0). It is fixed and its
+                # derivative never matters: report 0 instead of poisoning the norm.
+                _lb, _ub = finite_diff_options["bounds"]
+                _fixed = np.broadcast_to(np.asarray(_lb) == np.asarray(_ub), self.g.shape)
+                if _fixed.any():
+                    self.g = np.where(_fixed, 0.0, self.g)
 
         self._update_grad_impl = update_grad
 
